@@ -481,7 +481,8 @@ for _t, _tn in ((0, 'BOOLEAN'), (1, 'NativeInteger'), (2, 'INTEGER'), (3, 'OCTET
           defines=['VF_TYPE=%d' % _t, 'VF_SYN=%s' % _sy], functions=['asn_encode', '%s encoder (%s)' % (_tn, _sn)], link=ALLSK, stubs=['stubs/bsearch.c'],
           fp_restrict=[(r'callback_failure_catch_cb::1::key\.callback', ['vf_cb'])],
           unwind=12, cbmc=['--unwindset', 'asn_put_few_bits:3,uper_put_constrained_whole_number_u:4', '--no-malloc-may-fail'],
-          bound='values of at most 3 octets (4 for the native integer), callback failing at any of the first 5 calls', min_props=30, timeout=900, tier='experimental')
+          bound='values of at most 3 octets (4 for the native integer), callback failing at any of the first 5 calls', min_props=30, timeout=900,
+          tier='experimental' if (_sn == 'UPER' and _tn not in ('BOOLEAN', 'OBJECT_IDENTIFIER')) else 'quick')
 
 # ---------------------------------------------------------------- NativeReal over DER
 O(id='NativeReal_encode_der', props=['C02', 'C13', 'C14'], kind='width', entry='h_NativeReal_encode_der', harness='harness/h_nativereal.c',
